@@ -52,11 +52,15 @@ def stanza_keys_read(fn):
 
 def run(ctx):
     repo = ctx.repo
+    from ..astutil import bind_roles, canonicalise
+
     fw = repo.func(MD, "BaseMergeDirective._to_lines")
+    fw = canonicalise(fw, bind_roles(fw, {"stanza_kwargs": ("assign", lambda t, n: isinstance(n, ast.Dict) and "'revision_id'" in t), "stanza": ("assign", "rio.Stanza(**{stanza_kwargs})")}, f"{MD}:BaseMergeDirective._to_lines"))
     written = stanza_keys_written(fw)
     ctx.require({"revision_id", "timestamp", "target_branch"} <= written, f"{MD}:_to_lines: stanza keys not found ({sorted(written)})")
     for cname, with_base in (("MergeDirective", False), ("MergeDirective2", True)):
         fr = repo.func(MD, f"{cname}._from_lines")
+        fr = canonicalise(fr, bind_roles(fr, {"stanza": ("assign", "~rio_patch\\.read_patch_stanza\\(.*\\)")}, f"{MD}:{cname}._from_lines"))
         read = stanza_keys_read(fr)
         w = set(written) if with_base else written - {"base_revision_id"}
         where = f"{MD}:{cname}._to_lines/_from_lines"
@@ -91,6 +95,9 @@ def run(ctx):
                         emitted.add(a.value)
     ctx.check("bundle-kinds", f"{V4}:BundleWriter", emitted <= accepted and len(emitted) >= 5, f"record kinds emitted {sorted(emitted)} are accepted by encode_name {sorted(accepted)}", construct=str(sorted(emitted - accepted)))
     inst = repo.func(V4, "RevisionInstaller._install_in_write_group")
+    _it = [t for t in __import__("sa.astutil", fromlist=["x"]).loop_targets_nested(inst, lambda t, n: "iter_records" in t)]
+    ctx.require(len(_it) == 1 and len(_it[0]) >= 5, f"{V4}:RevisionInstaller._install_in_write_group: record loop not found")
+    inst = canonicalise(inst, {"repo_kind": _it[0][2]})
     handled = set()
     for n in walk_own(inst):
         if isinstance(n, ast.Compare) and norm(n.left) == "repo_kind" and isinstance(n.ops[0], ast.Eq) and isinstance(n.comparators[0], ast.Constant):
